@@ -24,10 +24,11 @@ def main():
         c = (m.get("our_checks") or {}).get(own) or {}
         v = m.get("verified") or {}
         sigs = c.get("signatures") or []
-        applies = v.get("demo_patched_rc") not in (0, None) and "192 passed" in (v.get("tests") or "")
+        applies = v.get("demo_patched_rc") not in (0, None) and "192 passed" in (v.get("tests") or "") \
+            and not m.get("no_longer_applicable")
         stats["total"] += 1
         if not applies:
-            now = "patch no longer applies / demo does not fail on the current /repo HEAD"
+            now = "no longer applicable on the current /repo HEAD (patch does not apply / a later fix made the change behaviour-preserving); earlier: " + ", ".join((c.get("signatures") or [])[:2])
             stats["not_applicable"] += 1
         elif c.get("rc") == 1 and sigs and sigs != ["correspondence-broken"]:
             now = "exit 1: " + ", ".join(s.replace(own + "-", "") for s in sigs[:3])
